@@ -327,10 +327,22 @@ def tbl25_decoder_validates_what_the_applier_assumes(ctx):
     du = DefUse(F)
     cfg = CFG(F)
     from .common import classify_result_use, err_return_blocks
-    # (a) sparse indices are validated by a fallible helper (or inline comparisons) in each sparse arm
-    idx_calls = [(blk, t) for (blk, t) in F.calls() if not blk.cleanup and norm_callee(t.func or '').endswith('::get_indices')]
-    ctx.require(len(idx_calls) >= 2, 'TBL-25: fewer than 2 sparse arms (get_indices) in deserialize_reader')
-    for k, (blk, t) in enumerate(idx_calls):
+    # (a) sparse indices are validated by a fallible helper (or inline comparisons) in each sparse arm;
+    # the arms may have moved into a helper of the decoder (`deserialize_column_data`)
+    bodies = [F]
+    for (blk, t) in F.calls():
+        if blk.cleanup or not t.func:
+            continue
+        for hb in P.resolve(t.func, F.crate):
+            if hb.crate == F.crate and hb.kind == 'fn' and hb not in bodies:
+                hb.parse()
+                if any(norm_callee(t3.func or '').endswith('::get_indices') for (_b3, t3) in hb.calls()):
+                    bodies.append(hb)
+    idx_calls = [(B, blk, t) for B in bodies for (blk, t) in B.calls() if not blk.cleanup and norm_callee(t.func or '').endswith('::get_indices')]
+    ctx.require(len(idx_calls) >= 2, 'TBL-25: fewer than 2 sparse arms (get_indices) in the ingestion message decoder')
+    F0 = F
+    for k, (F, blk, t) in enumerate(idx_calls):
+        du = DefUse(F)
         fw = du.forward(base_local(t.dest))
         validated = False
         for (b2, t2) in F.calls():
@@ -360,6 +372,8 @@ def tbl25_decoder_validates_what_the_applier_assumes(ctx):
                                                              'table length underflow `i - next_i` in the applier after the request was logged'),
                   where(t))
     # (b) column length against table length
+    F = F0
+    du = DefUse(F)
     lens = [(blk, t) for (blk, t) in F.calls() if not blk.cleanup and norm_callee(t.func or '').endswith('ColumnData::len')]
     tl = [(blk, t) for (blk, t) in F.calls() if not blk.cleanup and norm_callee(t.func or '').endswith('::get_len')]
     ok = False
